@@ -46,36 +46,36 @@ def pvquad (q : Quad) (f : K → K) (a b : K) : K :=
   (b - a) / 2 * q.foldl (fun acc rw => acc + rw.2 * f ((b - a) * (rw.1 + 1) / 2 + a)) 0
 
 /-- outcome of a real-part evaluation -/
-inductive Res where
+inductive DRes where
   | ok (v : K)
   | valueError          -- math.log of a non-positive number ("math domain error")
   | zeroDivisionError   -- Python float division by zero
 
 /-- `math.log(num / den)` on Python floats -/
-def pyLogDiv (num den : K) : Res :=
+def pyLogDiv (num den : K) : DRes :=
   if den < 0 ∨ 0 < den then
     (if 0 < num / den then .ok (klog (num / den)) else .valueError)
   else .zeroDivisionError
 
 /-- `DispersionCFF._ReV(pt, imfun, subsign)`; `sub` = self.subtraction(pt) -/
-def reV (q : Quad) (imfun : K → K) (sub xi subsign : K) : Res :=
+def reV (q : Quad) (imfun : K → K) (sub xi subsign : K) : DRes :=
   let res := pvquad q (dispargV imfun xi) 0 1
   match pyLogDiv (xi ^ (2:Nat)) (1 - xi ^ (2:Nat)) with
   | .ok l => .ok ((res + l * imfun xi) / kpi + subsign * sub)
   | e => e
 
 /-- `DispersionCFF._ReA(pt, imfun)` -/
-def reA (q : Quad) (imfun : K → K) (xi : K) : Res :=
+def reA (q : Quad) (imfun : K → K) (xi : K) : DRes :=
   let res := pvquad q (dispargA imfun xi) 0 1
   match pyLogDiv (1 + xi) (1 - xi) with
   | .ok l => .ok ((res + l * imfun xi) / kpi)
   | e => e
 
 /-- `DispersionCFF.ReH / ReE / ReHt / ReEt` -/
-def reH (q : Quad) (imH : K → K) (sub xi : K) : Res := reV q imH sub xi (-1)
-def reE (q : Quad) (imE : K → K) (sub xi : K) : Res := reV q imE sub xi 1
-def reHt (q : Quad) (imHt : K → K) (xi : K) : Res := reA q imHt xi
-def reEt (q : Quad) (imEt : K → K) (xi : K) : Res := reA q imEt xi
+def reH (q : Quad) (imH : K → K) (sub xi : K) : DRes := reV q imH sub xi (-1)
+def reE (q : Quad) (imE : K → K) (sub xi : K) : DRes := reV q imE sub xi 1
+def reHt (q : Quad) (imHt : K → K) (xi : K) : DRes := reA q imHt xi
+def reEt (q : Quad) (imEt : K → K) (xi : K) : DRes := reA q imEt xi
 
 /-! ### the KM ansatz: DispersionFixedPoleCFF / DispersionFreePoleCFF -/
 
@@ -148,30 +148,30 @@ def dmFreePole (rpi mpi2 t xi : K) (neutron : Bool) : K :=
   if neutron then -pole else pole
 
 /-- DispersionFixedPoleCFF: ReH, ReE, ReHt by dispersion relation, ReEt by the pion pole -/
-def kmReH (q : Quad) (p : KMPar) (t : K) (n : Bool) (xi : K) : Res :=
+def kmReH (q : Quad) (p : KMPar) (t : K) (n : Bool) (xi : K) : DRes :=
   reH q (kmImH p t n) (kmSubtraction p t) xi
-def kmReE (q : Quad) (p : KMPar) (t : K) (xi : K) : Res :=
+def kmReE (q : Quad) (p : KMPar) (t : K) (xi : K) : DRes :=
   reE q kmImE (kmSubtraction p t) xi
-def kmReHt (q : Quad) (p : KMPar) (t : K) (n : Bool) (xi : K) : Res :=
+def kmReHt (q : Quad) (p : KMPar) (t : K) (n : Bool) (xi : K) : DRes :=
   reHt q (kmImHt p t n) xi
 def kmReEtFixed (t xi : K) (n : Bool) : K := dmFixPole t xi n
 def kmReEtFree (rpi mpi2 t xi : K) (n : Bool) : K := dmFreePole rpi mpi2 t xi n
 
 /-! ### HybridCFF: Mellin–Barnes part (a parameter) + dispersive part with the KM Im as imfun -/
 
-def addMB (mb : K) : Res → Res
+def addMB (mb : K) : DRes → DRes
   | .ok v => .ok (mb + v)
   | e => e
 
 /-- `HybridCFF.ReH(pt)` = MellinBarnesCFF.ReH(self, pt) + DispersionFixedPoleCFF.ReH(self, pt,
     imfun=DispersionFixedPoleCFF.ImH) -/
-def hybridReH (mbReH : K) (q : Quad) (p : KMPar) (t : K) (n : Bool) (xi : K) : Res :=
+def hybridReH (mbReH : K) (q : Quad) (p : KMPar) (t : K) (n : Bool) (xi : K) : DRes :=
   addMB mbReH (reH q (kmImH p t n) (kmSubtraction p t) xi)
 /-- `HybridCFF.ReE(pt)` -/
-def hybridReE (mbReE : K) (q : Quad) (p : KMPar) (t : K) (xi : K) : Res :=
+def hybridReE (mbReE : K) (q : Quad) (p : KMPar) (t : K) (xi : K) : DRes :=
   addMB mbReE (reE q kmImE (kmSubtraction p t) xi)
 /-- `HybridCFF.ReHt(pt)`: no MB part -/
-def hybridReHt (q : Quad) (p : KMPar) (t : K) (n : Bool) (xi : K) : Res :=
+def hybridReHt (q : Quad) (p : KMPar) (t : K) (n : Bool) (xi : K) : DRes :=
   reHt q (kmImHt p t n) xi
 /-- `HybridCFF.ImH(pt, x)`: the MB part is always taken at pt.xi -/
 def hybridImH (mbImH : K) (p : KMPar) (t : K) (n : Bool) (x : K) : K := mbImH + kmImH p t n x
@@ -179,6 +179,6 @@ def hybridImH (mbImH : K) (p : KMPar) (t : K) (n : Bool) (x : K) : K := mbImH + 
 def hybridReEt : K := 0
 
 /-- `GoloskokovKrollCFF.ReEt(pt)` = ReEtpole(pt) + DispersionCFF.ReEt(self, pt) -/
-def gkReEt (pole : K) (q : Quad) (imEt : K → K) (xi : K) : Res := addMB pole (reEt q imEt xi)
+def gkReEt (pole : K) (q : Quad) (imEt : K → K) (xi : K) : DRes := addMB pole (reEt q imEt xi)
 
 end Gep.F
